@@ -126,6 +126,9 @@ def sessions_for(tier):
 
     q = [
         X("tric", "angle2", D3(2, 1, 1), "P", True),
+        # strongly sheared supercell of a P1 crystal: the generated displacements follow the supercell axes and are
+        # nearly coplanar (smallest/largest singular value ~ 0.025) - the fit must still be exact (seed c01-8)
+        X("tric", "angle2", [[1, 0, 0], [20, 1, 0], [0, 0, 1]], "P", True),
         X("tric", "angle2", [[1, 1, 0], [0, 1, 0], [0, 0, 2]], "P", True, symprec=1e-3, perturb=1e-4),
         X("tetab", "angle2", D3(2, 2, 1), "P", True, hom=True, scaled=True),
         X("cscl", "angle1", [[1, 1, 0], [-1, 1, 0], [0, 0, 1]], "P"),
@@ -228,8 +231,11 @@ def project_disp(u, lat, dists):
         n = [0, 0, 0]
     length = float(np.linalg.norm(u))
     did = 0
+    # handed-out cells store scaled positions: the Cartesian round trip costs ~eps * cond(lattice) * |lattice| in
+    # absolute terms (4e-13 for the shear-20 supercell, more than 1e-9 * 1e-4), so the tolerance follows the lattice
+    slack = 1e-14 * float(np.linalg.cond(lat)) * float(np.abs(lat).max())
     for k, d in enumerate(dists):
-        if abs(length - d) <= 1e-9 * d:
+        if abs(length - d) <= max(1e-9 * d, slack):
             did = k + 1
     return n, did
 
